@@ -276,8 +276,35 @@ func checkUnpackForgets(rep *Reporter, c *hcase, wire []byte) {
 		} else if d1 != d2 {
 			rep.Viol("after Unpack Describe differs between a used message and a new one", line,
 				fmt.Sprintf("used: %q | new: %q", d1, d2))
+		} else if l1, l2 := latent(c, used.Cur), latent(c, fresh.Cur); l1 != l2 {
+			rep.Viol("after Unpack a field that is not part of the message still holds a value from before (GetString of every field of the spec)", line,
+				fmt.Sprintf("used: %s | new: %s", l1, l2))
 		}
 	})
+}
+
+// latent: what GetString reports for every field of the spec, present or not (a field that is
+// not part of the unpacked message must look the way it looks in a new message)
+func latent(c *hcase, m *iso8583.Message) string {
+	ids := make([]int, 0, len(c.spec.Fields))
+	for id := range c.spec.Fields {
+		if id != 1 {
+			ids = append(ids, id)
+		}
+	}
+	sort.Ints(ids)
+	var out []string
+	for _, id := range ids {
+		id := id
+		out = append(out, fmt.Sprintf("%d=%s", id, protect(func() string {
+			s, err := m.GetString(id)
+			if err != nil {
+				return "err"
+			}
+			return fmt.Sprintf("%q", s)
+		})))
+	}
+	return strings.Join(out, " ")
 }
 
 func checkC10History(rep *Reporter, c *hcase) {
@@ -420,11 +447,21 @@ func runC10(t gen.Tier, r *gen.Rng, rep *Reporter) {
 	a, _ := impl.UnHex(wa)
 	b, _ := impl.UnHex(wb)
 	g := gen.NewFieldGen(r)
+	minMsg, _ := impl.UnHex(gen.HMessageMin())
+	// a decode that fails inside a composite, then (checkUnpackForgets) an Unpack without it
+	for _, rs := range gen.HResidue() {
+		for k := 0; k < 3; k++ {
+			ops := append(randomFixedOps(r, k, false), rs)
+			checkUnpackForgets(rep, fixedCase(ops), minMsg)
+			checkUnpackForgets(rep, fixedCase(ops), b)
+		}
+	}
 	forCases(t, r, t.N(300, 6000), t.N(300, 6000), t.N(250, 6000), func(c *hcase) {
 		if c.specS == gen.HFixedSpec {
 			checkUnpackForgets(rep, c, b) // B's fields / subfields are a strict subset of A's
 			checkUnpackForgets(rep, c, a)
 			checkUnpackForgets(rep, c, a[:len(a)-2])
+			checkUnpackForgets(rep, c, minMsg) // no composite at all
 		} else {
 			for k := 0; k < 2; k++ {
 				if w, ok := randomWire(c, g); ok {
